@@ -44,6 +44,9 @@ fn main() {
             if mode == "hist12" || mode == "all" {
                 gen::drive_histories(&args, &w, kb(110, 3000), kb(12, 100), true);
             }
+            if mode == "anchor" {
+                gen::drive_anchor(&args);
+            }
             if mode == "stream" {
                 gen::drive_streams(&args, &w, thorough);
             }
